@@ -459,6 +459,9 @@ namespace ValueFlow
                 ((Token::Match(parent, "[&*]") && astIsIntegral(parent, true) && value.intvalue == 0) ||
                  (Token::simpleMatch(parent, "&&") && value.intvalue == 0) ||
                  (Token::simpleMatch(parent, "||") && value.intvalue != 0))) {
+                // the result of "||" is 1, not the value of the operand
+                if (Token::simpleMatch(parent, "||"))
+                    value.intvalue = 1;
                 value.bound = Value::Bound::Point;
                 setTokenValue(parent, std::move(value), settings);
                 return;
